@@ -5,6 +5,7 @@
   (QExPy/Model/Units.lean) and the parser `parse` (QExPy/Model/UnitParse.lean).
 -/
 import QExPy.Lemmas.UnitParse
+import QExPy.Lemmas.PrintAst
 
 namespace QExPy
 open U
@@ -17,14 +18,75 @@ theorem C13_separator_tie :
     constructFrac [(['s'], -1)] = "1/s".toList := by
   refine ⟨by decide, by decide, by decide, by decide +kernel⟩
 
-/- Full statement (not proved in general):
-     theorem C13_roundtrip (u : Units) (frac : Bool) (hw : WF u) (hz : NoZero u)
-         (hs : ∀ p ∈ u, p.1 ≠ [] ∧ p.1.all isAl) (hd : smallDen u) :
-         ∃ v, parse (unitProp [] frac u) = some v ∧ Equiv v u     (u ≠ [])
-   Proved below by kernel evaluation for every ordered exponent map with ≤ 2 entries over
-   {m, s, kg} and exponents {±1, ±2, ±3, ±1/2, 3/2, 2/3}, and ≤ 3 entries with exponents
-   {1, −1, −2, 1/2, −3/2}, in both styles (631 + 916 maps × 2 styles); the thorough tier of the
-   check enumerates all maps over ≤ 4 symbols with exponents [−4,4]∖{0} on the real code. -/
+/-- the symbols are ones the tokeniser reads as one symbol: non-empty and alphabetic
+    (the decidable well-formedness hypothesis of `C13_roundtrip`) -/
+def symsOK (u : Units) : Bool := u.all fun p => !p.1.isEmpty && p.1.all isAl
+
+theorem symsOK_iff (u : Units) (h : symsOK u = true) : ∀ x ∈ u, SymOK x.1 := by
+  intro x hx
+  have := (List.all_eq_true.mp h) x hx
+  simp only [Bool.and_eq_true, Bool.not_eq_true', List.isEmpty_eq_false_iff,
+    List.all_eq_true] at this
+  exact ⟨this.1, this.2⟩
+
+/-- **C13 (round trip, all exponent maps).** For *every* exponent map `u` — any number of
+    symbols, any non-zero rational exponents (integers and fractions p/q alike), any order, any
+    sign pattern — with distinct alphabetic symbols, and in both display styles, the string the
+    printer produces (`f⋅g^2`, `1/s`, `kg/(m^(1/2)⋅s)`, …) is accepted by the parser, and the
+    exponent list `v` it returns has exactly the exponents of `u` for every symbol.
+    Proof: the printed string is a rendering of an explicit syntax tree (`expE` / `fracE`,
+    `Lemmas/PrintAst.lean`) whose tokens are lexically unambiguous and whose denotation is `u`;
+    `parse_complete` = `C12_complete` (lexical round trip + token-level equivalence + evaluation) does the rest.
+    The model's `powerStr` equals `__power_num2str` for denominators ≤ 10 (`smallDen`, where
+    `limit_denominator(10)` is the identity); the theorem itself needs no bound. -/
+theorem C13_roundtrip (u : Units) (frac : Bool) (hne : u ≠ []) (hw : WF u) (hz : NoZero u)
+    (hs : symsOK u = true) :
+    ∃ v, parse (unitProp [] frac u) = some v ∧ WF v ∧ Equiv v u := by
+  have hs' := symsOK_iff u hs
+  have hprop : unitProp [] frac u = if frac then constructFrac u else constructExp u := by
+    cases u with
+    | nil => exact absurd rfl hne
+    | cons p r => simp [unitProp, construct, packOr_nil]
+  rw [hprop]
+  cases frac with
+  | false =>
+    cases u with
+    | nil => exact absurd rfl hne
+    | cons p r =>
+      obtain ⟨v, h1, h2, h3⟩ := parse_complete (expE (p :: r)) (prodE_ok p r)
+        (expE_lex p r hs') _ (expE_text p r hs')
+      exact ⟨v, h1, h2, fun s => by rw [h3 s, expE_den _ hw hne]⟩
+  | true =>
+    have hpn := pos_or_neg u hne hz
+    obtain ⟨v, h1, h2, h3⟩ := parse_complete (fracE u) (fracE_ok u) (fracE_lex u hs' hpn) _
+      (fracE_text u hs' hpn)
+    exact ⟨v, h1, h2, fun s => by rw [h3 s, fracE_den u hw hz]⟩
+
+/-- **C13 (assignment).** `b.unit = a.unit` in the model is `parse (unitProp a._unit)`: it
+    succeeds, and what `b` then prints is accepted again with the same exponents (so the unit can
+    be handed on any number of times, as `MeasurementArray.append/insert/__setitem__` do for
+    every element), provided the parsed list itself has no zero entry — which holds because
+    every printed symbol occurs once. -/
+theorem C13_assign_twice (u : Units) (f1 f2 : Bool) (hne : u ≠ []) (hw : WF u) (hz : NoZero u)
+    (hs : symsOK u = true) :
+    ∃ v, parse (unitProp [] f1 u) = some v ∧ Equiv v u ∧
+      (v ≠ [] → NoZero v → symsOK v = true →
+        ∃ w, parse (unitProp [] f2 v) = some w ∧ Equiv w u) := by
+  obtain ⟨v, h1, h2, h3⟩ := C13_roundtrip u f1 hne hw hz hs
+  refine ⟨v, h1, h3, fun hv hzv hsv => ?_⟩
+  obtain ⟨w, g1, _, g3⟩ := C13_roundtrip v f2 hv h2 hzv hsv
+  exact ⟨w, g1, fun s => (g3 s).trans (h3 s)⟩
+
+/-- non-vacuity: kg·m^(1/2)/s² satisfies the hypotheses of `C13_roundtrip` -/
+example : let u : Units := [("kg".toList, 1), ("m".toList, mkRat 1 2), ("s".toList, -2)]
+    u ≠ [] ∧ WF u ∧ NoZero u ∧ symsOK u = true := by
+  refine ⟨by simp, by simp [WF], ?_, by decide⟩
+  intro p hp
+  simp only [List.mem_cons, List.not_mem_nil, or_false] at hp
+  rcases hp with rfl | rfl | rfl <;> norm_num
+
+/- The bounded theorem below was the state before the general proof; it is kept because it
+   pins the model to concrete cases by kernel evaluation. -/
 
 set_option maxRecDepth 1000000 in
 /-- **C13 (round trip, bounded).** for every such exponent map and both styles the printed unit
